@@ -566,6 +566,12 @@ func c12Run(input string) string {
 			TagName: c12Atoms["b"]})); err == nil {
 			_ = it.Close()
 		}
+		// the sort order given twice (a wrapper's default order, then the caller's own), and with a name:value expression
+		if it, err := st.Query(c12Atoms["a"]+":"+c12Atoms["1"], spi.WithSortOrder(&spi.SortOptions{Order: spi.SortAscending,
+			TagName: c12Atoms["c"]}), spi.WithPageSize(3), spi.WithSortOrder(&spi.SortOptions{Order: spi.SortDescending,
+			TagName: c12Atoms["b"]})); err == nil {
+			_ = it.Close()
+		}
 	}
 	var canon []string
 	e.seenJWE, e.reused = map[string]int{}, false
